@@ -4,7 +4,7 @@
   The property, clause by clause:
    (m1) Marshal of an in-range value = the bytes of the specification's bit layout;
    (m2) Marshal of an out-of-range AudioLevel / PlayoutDelay = an error (not a truncated encoding);
-   (rt) Unmarshal (into any receiver) of what Marshal produced gives the value back;
+   (rt) Unmarshal (into any receiver) of what Marshal produced gives the in-range value back;
    (u1) Unmarshal of ≥ size bytes = ok, fields = the specified fields of the first `size` bytes,
         whatever the receiver held before (the expected fields are computed from the input bytes only);
    (u2) Unmarshal of fewer bytes = an error;   (u3) no panic (implied: a panic is neither ok nor err).
@@ -17,10 +17,12 @@ open Rtp Rtp.Model.ExtCodecs Rtp.Spec.ExtLayouts
 
 /-- the specification side of one codec -/
 structure ExtSpec (σ : Type) where
-  /-- Marshal must succeed exactly on these values -/
+  /-- the values the wire format represents: Marshal must emit their layout, and the round trip is the identity -/
   inRange : σ → Bool
-  /-- values the wire format represents exactly (Unmarshal ∘ Marshal = id); a subset of `inRange` -/
-  exact : σ → Bool
+  /-- the out-of-range values for which the property demands an error (AudioLevel, PlayoutDelay);
+      values that are neither in range nor to be rejected (an AbsSendTime timestamp wider than 24 bits)
+      are not constrained by C17 — what the code does with them is compared with the model only -/
+  reject : σ → Bool
   /-- the bit layout of an in-range value -/
   layout : σ → List Field
   /-- the specified decoding: `none` when the input is shorter than the fixed size -/
@@ -49,9 +51,10 @@ def marshalOk {σ} [DecidableEq σ] (S : ExtSpec σ) (v : σ) (o : MObs σ) : Bo
   if S.inRange v then
     o.out == .ok (render (S.layout v)) &&
     (match o.rt with
-     | some u => u.res == .ok () && (!S.exact v || u.st == v)
+     | some u => u.res == .ok () && u.st == v
      | none => false)
-  else o.out.isErr
+  else if S.reject v then o.out.isErr
+  else true
 
 /-- (u1) (u2) (u3); the receiver's earlier content does not occur in the expected value -/
 def unmarshalOk {σ} [DecidableEq σ] (S : ExtSpec σ) (raw : Bytes) (o : Un σ) : Bool :=
@@ -63,7 +66,7 @@ def unmarshalOk {σ} [DecidableEq σ] (S : ExtSpec σ) (raw : Bytes) (o : Un σ)
 
 def audioSpec : ExtSpec AudioLevel where
   inRange a := a.level ≤ 127
-  exact a := a.level ≤ 127
+  reject a := a.level > 127
   layout a := audioLevel a.voice a.level.toNat
   decode bs :=
     if bs.length < 1 then none else
@@ -73,7 +76,7 @@ def audioSpec : ExtSpec AudioLevel where
 
 def tccSpec : ExtSpec TransportCC where
   inRange _ := true
-  exact _ := true
+  reject _ := false
   layout t := transportCC t.seq.toNat
   decode bs :=
     if bs.length < 2 then none else
@@ -83,7 +86,7 @@ def tccSpec : ExtSpec TransportCC where
 
 def playoutSpec : ExtSpec PlayoutDelay where
   inRange p := p.min ≤ 4095 && p.max ≤ 4095
-  exact p := p.min ≤ 4095 && p.max ≤ 4095
+  reject p := p.min > 4095 || p.max > 4095
   layout p := playoutDelay p.min.toNat p.max.toNat
   decode bs :=
     if bs.length < 3 then none else
@@ -91,12 +94,14 @@ def playoutSpec : ExtSpec PlayoutDelay where
     | [a, b] => some { min := a.toUInt16, max := b.toUInt16 }
     | _ => none
 
-/-- the Go field is a `uint64` of which the wire carries the low 24 bits (NewAbsSendTimeExtension
-    relies on this: it stores `ntp >> 14`, 50 bits); there is no out-of-range error, and the round
-    trip is the identity exactly on the 24-bit values -/
+/-- the Go field is a `uint64`, the wire field has 24 bits: in range = below 2^24.  The property names
+    no error for wider values, so none is demanded (the code sends their low 24 bits, which
+    NewAbsSendTimeExtension relies on: it stores `ntp >> 14`, 50 bits — `c17_abssend_spelled` states
+    that for the model, C18 builds on it).  The layout is written with `% 2^24` so that the same
+    expression also describes what is sent for the wider values. -/
 def absSendSpec : ExtSpec AbsSendTime where
-  inRange _ := true
-  exact t := t.ts < 16777216
+  inRange t := t.ts < 16777216
+  reject _ := false
   layout t := absSendTime (t.ts.toNat % 2 ^ 24)
   decode bs :=
     if bs.length < 3 then none else
@@ -108,7 +113,7 @@ def absSendSpec : ExtSpec AbsSendTime where
     short form, ≥ 16 as the long form -/
 def absCaptureSpec : ExtSpec AbsCaptureTime where
   inRange _ := true
-  exact _ := true
+  reject _ := false
   layout t := absCaptureTime t.ts.toNat (t.off.map (·.toInt))
   decode bs :=
     if bs.length < 8 then none
